@@ -178,7 +178,10 @@ static void trace_op(const char *op)
   int at = sh->trlen;
   if(at + n + 2 >= sizeof sh->trace) return;
   if(at) sh->trace[at++] = ',';
-  memcpy((char *)sh->trace + at, op, n); at += n;
+  memcpy((char *)sh->trace + at, op, n);
+  /* the pen calls are all "a call that reads these windows" to the discipline: one spelling in the trace */
+  if(op[0] == 'z' || op[0] == 'P') ((char *)sh->trace)[at] = 'q';
+  at += n;
   sh->trace[at] = 0;
   sh->trlen = at;
 }
@@ -232,6 +235,17 @@ static void w_op(const char *op, int depth)
       TickitRect r = tickit_window_get_geometry(W[i]);
       r.lines = r.lines == 4 ? 3 : 4;
       tickit_window_set_geometry(W[i], r); break; }
+    /* window pens: the window holds a reference on its pen; set_pen with the pen it already has, with another
+     * window's pen, with NULL, with a fresh pen; scrollrect with a pen argument */
+    case 'q': { int i = p_int(&s); tickit_window_set_pen(W[i], tickit_window_get_pen(W[i])); break; }
+    case 'Q': { int i = p_int(&s), j = p_int(&s); tickit_window_set_pen(W[i], tickit_window_get_pen(W[j])); break; }
+    case 'z': { int i = p_int(&s); tickit_window_set_pen(W[i], NULL); break; }
+    case 'P': { int i = p_int(&s);
+      TickitPen *pen = tickit_pen_new_attrs(TICKIT_PEN_FG, 2, TICKIT_PEN_BOLD, 1, 0);
+      tickit_window_set_pen(W[i], pen); tickit_pen_unref(pen); break; }
+    case 'o': { int i = p_int(&s), j = p_int(&s);
+      TickitRect r = { .top = 0, .left = 0, .lines = 2, .cols = 4 };
+      tickit_window_scrollrect(W[i], &r, 1, 0, tickit_window_get_pen(W[j])); break; }
     case '-': break;   /* no-op */
     default: printf("ERR op %s\n", op); fflush(stdout); _exit(0);
   }
